@@ -38,9 +38,18 @@ type progCase struct {
 	StateMod  bool   `json:"statemod"` // builtin module "st" with mutable container attributes
 }
 
+type objImportable struct{ o tengo.Object }
+
+func (i objImportable) Import(string) (interface{}, error) { return i.o, nil }
+
 // addSpecialModules: embedder-supplied modules beyond source modules and stdlib
 func addSpecialModules(mm *tengo.ModuleMap, pc *progCase) {
-	if pc.Weird != "" {
+	if pc.Weird == "two-unnamed" {
+		// two different modules handed out by custom importables as plain immutable maps without a module name
+		mm.Add("cfgA", objImportable{&tengo.ImmutableMap{Value: map[string]tengo.Object{"id": &tengo.String{Value: "A"}, "n": &tengo.Int{Value: 1}}}})
+		mm.Add("cfgB", objImportable{&tengo.ImmutableMap{Value: map[string]tengo.Object{"id": &tengo.String{Value: "B"}, "n": &tengo.Int{Value: 2}}}})
+		mm.Add("cfgC", objImportable{&tengo.ImmutableMap{Value: map[string]tengo.Object{"id": &tengo.String{Value: "A"}, "n": &tengo.Int{Value: 1}}}}) // equal to cfgA, still its own module
+	} else if pc.Weird != "" {
 		mm.Add("weird", weirdImportable{pc.Weird})
 	}
 	if pc.StateMod {
